@@ -88,6 +88,7 @@ func (ex *Exec) callWith(fr *Frame, st *State, cc *ssa.CallCommon, fnv Val, args
 	// dynamic function value
 	ex.note("havoc", "dynamic call of a function value at "+ex.posString(pos))
 	ex.havocAll(st)
+	ex.havocEscapedLocals(st, args)
 	return ex.freshResult(st, "dyn", rt)
 }
 
@@ -150,6 +151,7 @@ func (ex *Exec) dispatch(fr *Frame, st *State, key string, fn *ssa.Function, fre
 	default:
 		ex.note("havoc", key)
 		ex.havocAll(st)
+		ex.havocEscapedLocals(st, args)
 		res = ex.freshResult(st, shortName(key), rt)
 	}
 	if fr.con != nil && ex.dry == 0 {
@@ -226,6 +228,23 @@ func (ex *Exec) typeFactsPure(st *State, v Val) {
 			case *types.Pointer, *types.Map:
 				ex.assume(st, Ge(t, Int(0)))
 			}
+		}
+	}
+}
+
+// havocEscapedLocals forgets locals whose address was handed to an unmodelled callee.
+func (ex *Exec) havocEscapedLocals(st *State, args []Val) {
+	for _, a := range args {
+		loc := a.Loc
+		if loc == nil && len(a.L) == 1 && ex.ifaceVals != nil {
+			if bv, ok := ex.ifaceVals[a.L[0]]; ok {
+				loc = bv.Loc
+			}
+		}
+		if loc != nil && loc.Kind == locCell {
+			nv := FreshVal("c_"+loc.Cell.Name, loc.T)
+			ex.typeFacts(st, nv)
+			ex.store(st, loc, nv)
 		}
 	}
 }
@@ -400,6 +419,11 @@ func (ex *Exec) bindLets(env *SpecEnv, con *Contract) {
 func (ex *Exec) havocDesignator(envPre *SpecEnv, st *State, d *SExpr) {
 	if d.Op == "call" && d.Args[0].Op == "id" && d.Args[0].Name == "obj" {
 		v := ex.evalSpec(envPre, d.Args[1])
+		if v.Loc == nil && len(v.L) == 1 && ex.ifaceVals != nil {
+			if bv, ok := ex.ifaceVals[v.L[0]]; ok && bv.Loc != nil {
+				v = bv
+			}
+		}
 		if v.Loc != nil && v.Loc.Kind == locCell {
 			nv := FreshVal("c_"+v.Loc.Cell.Name, v.Loc.T)
 			ex.typeFacts(st, nv)
@@ -472,6 +496,11 @@ func (ex *Exec) designatorHeaps(env *SpecEnv, d *SExpr) []heapRef {
 			switch d.Args[0].Name {
 			case "obj":
 				v := ex.evalSpec(env, d.Args[1])
+				if derefType(v.T) == nil && len(v.L) == 1 && ex.ifaceVals != nil {
+					if bv, ok := ex.ifaceVals[v.L[0]]; ok {
+						v = bv
+					}
+				}
 				et := derefType(v.T)
 				if et == nil {
 					unsupported("obj(): not a pointer: %s", d)
